@@ -243,6 +243,9 @@ func c08Key(c *Ctx, m map[string]interface{}, key string, choices []int) (nontri
 		return
 	}
 	c.RetainVal("Map.ValuesForKey", got, cas)
+	if !c.NoAlias("Map.ValuesForKey", got, m, shape, cas, choices) {
+		return len(exp) > 0
+	}
 	gotD := sortedCopy(dumpSeq(got))
 	if err != nil || !eqStrings(gotD, expD) {
 		c.Violate("Map.ValuesForKey", "values", shape, cas, choices, fmt.Sprintf("map=%s key=%q\n expected=%v\n   actual=%v err=%v", jsonOf(m), key, expD, gotD, err))
@@ -325,6 +328,9 @@ func c08Key(c *Ctx, m map[string]interface{}, key string, choices []int) (nontri
 		c.S.Transitions++
 		if pan || err != nil {
 			c.Violate("Map.ValuesForPath", "panic-or-error-on-PathsForKey-result", shape, cas, choices, fmt.Sprintf("path=%q %s %v", p, st, err))
+			return len(exp) > 0
+		}
+		if !c.NoAlias("Map.ValuesForPath", vs, m, shape, cas, choices) {
 			return len(exp) > 0
 		}
 		via = append(via, dumpSeq(vs)...)
@@ -446,6 +452,9 @@ func c08PathFilter(c *Ctx, m map[string]interface{}, path string, specs []string
 		c.Violate("Map.ValuesForPath(subkeys)", "error-on-wellformed-subkeys", "subkeys", cas, choices, err.Error())
 		return
 	}
+	if !c.NoAlias("Map.ValuesForPath(subkeys)", got, m, "subkeys", cas, choices) || !c.NoAlias("Map.ValuesForPath", unf, m, "subkeys", cas, choices) {
+		return
+	}
 	gotD := dumpSeq(got)
 	exps := filterExpect(unf, conds)
 	ok := false
@@ -546,8 +555,8 @@ func c08Run(c *Ctx) {
 		}
 	}
 	// wide family: more results than the internal initial capacity (32) and its first doubling (64)
-	for _, width := range []int{33, 70} {
-		for _, key := range []string{"k", "x", "*", "w05"} {
+	for _, width := range []int{31, 32, 33, 63, 64, 65, 70} {
+		for _, key := range []string{"k", "x", "*", "w05", "l", "m"} {
 			if !c.Mine() {
 				continue
 			}
